@@ -106,6 +106,20 @@ def negative_control(tracefile, name, max_events=6000):
     return n
 
 
+def proof(out, name):
+    """Unbounded safety of the design: spec/proofs/Deploy_proofs.tla (inductive invariant => []Authentic) checked by tlapm."""
+    import shutil, subprocess, re
+    d = C.ensure_dir(os.path.join(C.BUILD, name + "-proofs"))
+    shutil.copy(os.path.join(C.SPEC, "proofs", "Deploy_proofs.tla"), d)
+    p = subprocess.run(["timeout", "1800", "tlapm", "--threads", "8", "--cleanfp", "-I", C.SPEC, "Deploy_proofs.tla"], cwd=d,
+                       stdout=subprocess.PIPE, stderr=subprocess.STDOUT, text=True)
+    m = re.search(r"All (\d+) obligations proved", p.stdout)
+    shutil.rmtree(os.path.join(d, ".tlacache"), ignore_errors=True)
+    if not m:
+        raise C.ToolError("tlapm did not prove Deploy_proofs.tla: %s" % p.stdout[-600:])
+    out.extra["deploy_tlaps_obligations_proved"] = int(m.group(1))
+
+
 def run(out, tier, seed, name):
     r = C.tlc("MC_Deploy", "MC_Deploy_%s.cfg" % tier, "mc", name + "-deploy-mc", workers=8 if tier == "quick" else 14, timeout=7200, heap="16g")
     C.tlc_must_pass(r, "MC_Deploy")
@@ -118,6 +132,8 @@ def run(out, tier, seed, name):
             raise C.ToolError("Deploy.tla: %s %s was not detected by TLC" % ("mutant" if m in MUTANTS else "reachability witness", m))
         killed.append("%s:%s" % (m, inv))
     out.extra["deploy_mutants_and_witnesses"] = killed
+    if tier == "thorough":
+        proof(out, name)
     g, hs = behaviours(tier, seed, name)
     d = C.ensure_dir(os.path.join(C.BUILD, name + "-deploy"))
     cf = os.path.join(d, "behaviours.json")
